@@ -352,7 +352,10 @@ def main():
                 # another function, which is an obligation of its own)
                 if ob not in failing and not any(x.endswith('::' + c['clause']) and x not in named_obs for x in failing):
                     discharged += 1
-                if len(samples) < 12:
+                # samples: obligations tagged with this property first, the shared (untagged) ones only to fill up
+                if ctags:
+                    samples.insert(0, {'obligation': ob, 'clause': c['text']})
+                elif len(samples) < 12:
                     samples.append({'obligation': ob, 'clause': c['text']})
             # one implicit safety obligation per extracted function (no overflow / div0 / failed callee precondition / OOB)
             for fn in r['functions']:
@@ -386,7 +389,7 @@ def main():
             'discharged': discharged,
             'checker_cmd': '; '.join(sorted({r['cmd'] for r in results})),
             'trusted_base': trusted + spec.get('trusted', []),
-            'samples': samples,
+            'samples': samples[:16],
             'explanation': spec.get('explanation', ''),
             'functions_under_contract': fns,
             'back_ends': sorted(backends),
